@@ -167,6 +167,9 @@ M = [
     ('C17', 'expiry', 'pgpy.pgp', "        if expires_at is not None and expires_at != self.created:", "        if expires_at is not None:"),
     ('C17', 'expiry', 'pgpy.pgp', "            if sig.key_expiration is not None:\n                expires = sig.key_expiration\n", "            if sig.key_expiration is not None and expires is None:\n                expires = sig.key_expiration\n"),
     ('C17', 'expiry', 'pgpy.pgp', "            return self.created + expd\n        return None", "            return self.created\n        return None"),
+    ('C02', 'DSASignature.from_signer', 'pgpy.packet.fields', "                flen = _asn[0] & 0x7F\n                del _asn[0]\n\n            i = self.bytes_to_int(_asn[:flen])", "                flen = _asn[0] & 0x3F\n                del _asn[0]\n\n            i = self.bytes_to_int(_asn[:flen])"),
+    ('C02', 'DSASignature.from_signer', 'pgpy.packet.fields', "            del sig[:llen + 1]", "            del sig[:llen]"),
+    ('C02', 'DSASignature.from_signer', 'pgpy.packet.fields', "        self.r = MPI(_der_intf(sig))\n        self.s = MPI(_der_intf(sig))\n\n    def parse", "        self.s = MPI(_der_intf(sig))\n        self.r = MPI(_der_intf(sig))\n\n    def parse"),
 ]
 
 
